@@ -46,7 +46,14 @@ pub fn clap_dump(_req: &Value) -> Value {
                 conflicts.push(json!([a.get_id().as_str(), c.get_id().as_str()]));
             }
         }
-        subs.push(json!({"name": sc.get_name(), "args": args, "conflicts": conflicts, "hidden": sc.is_hide_set()}));
+        // argument groups: `#[group(multiple = false)]` makes the members mutually exclusive (not reported by
+        // get_arg_conflicts_with); a required group is reported so that the translator can refuse it
+        let groups: Vec<Value> = sc
+            .get_groups()
+            .map(|g| json!({"id": g.get_id().as_str(), "args": g.get_args().map(|a| a.as_str().to_string()).collect::<Vec<_>>(),
+                            "multiple": g.clone().is_multiple(), "required": g.is_required_set()}))
+            .collect();
+        subs.push(json!({"name": sc.get_name(), "args": args, "conflicts": conflicts, "groups": groups, "hidden": sc.is_hide_set()}));
     }
     let mut gconf = vec![];
     for a in cmd.get_arguments() {
@@ -54,7 +61,12 @@ pub fn clap_dump(_req: &Value) -> Value {
             gconf.push(json!([a.get_id().as_str(), c.get_id().as_str()]));
         }
     }
-    json!({"ok": {"globals": globals, "global_conflicts": gconf, "subcommands": subs}})
+    let ggroups: Vec<Value> = cmd
+        .get_groups()
+        .map(|g| json!({"id": g.get_id().as_str(), "args": g.get_args().map(|a| a.as_str().to_string()).collect::<Vec<_>>(),
+                        "multiple": g.clone().is_multiple(), "required": g.is_required_set()}))
+        .collect();
+    json!({"ok": {"globals": globals, "global_conflicts": gconf, "global_groups": ggroups, "subcommands": subs}})
 }
 
 pub fn clap_parse(req: &Value) -> Value {
